@@ -195,6 +195,18 @@ func c15(c *Ctx) {
 				c.Res.Violate("C15:"+role.name+":wrong-value", fmt.Sprintf("%s address %q parsed as %v, expected %v", role.name, s, got, want), w, caseNo)
 				return
 			}
+			// ... also into a variable that already holds an address - the same IP address with another port, or another address
+			// (a configuration that is reloaded in place)
+			{
+				prev := netip.AddrPortFrom(want.Addr(), want.Port()^0x0101)
+				if caseNo%2 == 0 {
+					prev = netip.AddrPortFrom(netip.AddrFrom4([4]byte{10, byte(caseNo), 3, 4}), 12345)
+				}
+				js, _ := json.Marshal(s)
+				if g5, e5, g6, e6 := c15IntoUsed(role.name, prev, s, js); e5 != nil || g5 != want || e6 != nil || g6 != want {
+					c.Res.Violate("C15:"+role.name+":into-used-variable", fmt.Sprintf("%s address %q stored into a variable holding %v: Set gives %v, %v and UnmarshalJSON %v, %v; expected %v", role.name, s, prev, g5, e5, g6, e6, want), w, caseNo)
+				}
+			}
 			// Set and JSON agree
 			if g2, e2 := role.set(s); e2 != nil || g2 != want {
 				c.Res.Violate("C15:"+role.name+":set", fmt.Sprintf("%s.Set(%q) = %v, %v; expected %v", role.name, s, g2, e2, want), w, caseNo)
@@ -370,5 +382,31 @@ func c15(c *Ctx) {
 		for _, s := range []string{"localhost", "localhost:60000", "example.com:80", "::1", "[::1]:80", "1.2.3", "1.2.3:80", "1..2.3", "...", "a.b.c.d", "a.b.c.d:80", ":", ":80", "1.2.3.", ".1.2.3", "1,2,3,4", "１.２.３.４", "1.2.3.4", "1.2.3.4:60000", "1.2.3.4:0"} {
 			check(role, s, "hand-picked")
 		}
+	}
+}
+
+// c15IntoUsed: Set and UnmarshalJSON on a receiver that already holds prev.
+func c15IntoUsed(role string, prev netip.AddrPort, s string, js []byte) (netip.AddrPort, error, netip.AddrPort, error) {
+	switch role {
+	case "bind":
+		a, b := types.BindAddr{AddrPort: prev}, types.BindAddr{AddrPort: prev}
+		e1 := a.Set(s)
+		e2 := json.Unmarshal(js, &b)
+		return a.AddrPort, e1, b.AddrPort, e2
+	case "broadcast":
+		a, b := types.BroadcastAddr{AddrPort: prev}, types.BroadcastAddr{AddrPort: prev}
+		e1 := a.Set(s)
+		e2 := json.Unmarshal(js, &b)
+		return a.AddrPort, e1, b.AddrPort, e2
+	case "listen":
+		a, b := types.ListenAddr{AddrPort: prev}, types.ListenAddr{AddrPort: prev}
+		e1 := a.Set(s)
+		e2 := json.Unmarshal(js, &b)
+		return a.AddrPort, e1, b.AddrPort, e2
+	default:
+		a, b := types.ControllerAddr{AddrPort: prev}, types.ControllerAddr{AddrPort: prev}
+		e1 := a.Set(s)
+		e2 := json.Unmarshal(js, &b)
+		return a.AddrPort, e1, b.AddrPort, e2
 	}
 }
